@@ -37,6 +37,8 @@ def run_cross(st, opts):
             F = 1.0 / (2.0 + sum(grids))
         else:
             F = project.dense(target.cores)
+        if cfg.get("scale", "unit") == "small":
+            F = F * 1e-5          # a target of tiny magnitude: the relative accuracy promised is scale invariant
 
         def f(I):
             ok_int = (not torch.is_floating_point(I)) and (not torch.is_complex(I))
@@ -65,8 +67,9 @@ def run_cross(st, opts):
                 pos = torch.searchsorted(srt, vv).clamp(1, srt.numel() - 1)
                 dist = torch.minimum((vv - srt[pos - 1]).abs(), (vv - srt[pos]).abs())
                 events.append({"rows": int(vv.numel()), "ncols": d, "isint": True, "inrange": bool((dist <= 1e-9 * scale).all())})
-                return 1.0 / (3.0 + v * v)
-            ref = 1.0 / (3.0 + xd * xd)
+                return SC / (3.0 + v * v)
+            SC = 1e-5 if cfg.get("scale", "unit") == "small" else 1.0
+            ref = SC / (3.0 + xd * xd)
             args, objs, names = x, [x], ["x"]
         else:
             vecs = [torch.linspace(0.0, 1.0 + j, N[j], dtype=dt) for j in range(d)]
@@ -87,8 +90,9 @@ def run_cross(st, opts):
                         dist = (E[a:a + step, None, :] - dense_args[None, :, :]).abs().amax(2).min(1).values
                         inr = inr and bool((dist <= 1e-9 * scale).all())
                 events.append({"rows": int(E.shape[0]), "ncols": int(E.shape[1]) if E.dim() == 2 else -1, "isint": True, "inrange": inr})
-                return 1.0 / (2.0 + E.sum(1))
-            ref = (1.0 / (2.0 + dense_args.sum(1))).reshape(N)
+                return SC / (2.0 + E.sum(1))
+            SC = 1e-5 if cfg.get("scale", "unit") == "small" else 1.0
+            ref = (SC / (2.0 + dense_args.sum(1))).reshape(N)
             args, objs, names = xs, list(xs), ["x%d" % j for j in range(d)]
         if g is not None:
             objs, names = objs + [g], names + ["start_tens"]
